@@ -9,6 +9,7 @@ import NadaVerif.Spec.C03
 import NadaVerif.Spec.C07
 import NadaVerif.Runtime.SourceRef
 import NadaVerif.Driver.AuditJson
+import NadaVerif.Spec.C15
 import NadaVerif.Driver.ProgJson
 
 namespace NadaVerif.Driver
@@ -80,6 +81,11 @@ def handle (j : Json) : Json :=
        let r := Runtime.lineInfo (ls.toList.map String.toList) n
        Json.arr #[Json.num (r.1 : Nat), Json.num (r.2 : Nat)]
      | _, _ => Json.mkObj [("error", Json.str "bad lineinfo request")])
+  | .ok "c15cells" => Json.mkObj [
+      ("cellAgrees", failingRows C15.cellAgrees),
+      ("checkerSound", Json.arr ((checkerTable.filter (fun r => !C15.checkerCellSound r || !C15.checkerCellProgress r)).map fun r =>
+          Json.mkObj [("op", Json.str r.1), ("args", Json.arr (r.2.1.map Json.str).toArray), ("checker", Json.str r.2.2),
+                      ("abstract", match C15.lookupAbs r.1 r.2.1 with | some s => Json.str s | none => Json.null)]).toArray)]
   | .ok "audit" => handleAudit j
   | .ok "fold" => handleFold j
   | .ok "prog" => handleProg j
